@@ -326,8 +326,9 @@ def profile_faults(rnd, tier):
     nchan = rnd.choice([1, 2, 2])
     g = Gen(rnd, nchan)
     steps = []
-    kind = rnd.choice(['recv', 'recv', 'reset', 'send', 'poll'])
+    kind = rnd.choice(['recv', 'recv', 'reset', 'send', 'poll', 'midframe'])
     fault = {'recv': (0, F('NFaultRecv', 0)), 'reset': (0, F('NFaultRecv', 1)),
+             'midframe': (0, F('NFaultRecv', 2)),
              'send': (0, F('NFaultSend')), 'poll': (0, F('NFaultPoll'))}[kind]
     n = rnd.randrange(2, 7)
     at = rnd.randrange(0, n)
@@ -374,7 +375,7 @@ def profile_faults(rnd, tier):
                 pos = rnd.randrange(0, len(ticks[k]) + 1)
                 ticks[k].insert(pos, fault)
                 # after the peer is gone nothing more arrives
-                if kind in ('recv', 'reset'):
+                if kind in ('recv', 'reset', 'midframe'):
                     ticks[k] = ticks[k][:pos + 1]
                     ticks = ticks[:k + 1]
         steps.append((c, op, ticks))
@@ -382,6 +383,16 @@ def profile_faults(rnd, tier):
         c = rnd.randrange(1, nchan + 1)
         steps.append((c, rnd.choice([('ack',), ('check',), ('rpc', 0), ('publish', False),
                                      ('close',), ('stop',), ('build',)]), []))
+    if kind != 'send' and rnd.random() < 0.2:
+        # the transport dies while a consumer is putting a body together: Deliver and a
+        # header announcing n > 0 bytes have arrived, the body has not (or only part of it)
+        g2 = Gen(rnd, 1)
+        fr = g2.content(1, F('NDeliver', 1, b'cz'), nbody=rnd.choice([1, 2, 3]))
+        cut = rnd.randrange(2, len(fr))
+        steps = [(1, ('consume', b'cz'), [[], [(1, F('NConsumeOk', 0, b'cz'))]]),
+                 (1, (rnd.choice(['build', 'process', 'start']),), [fr[:cut], [fault]]),
+                 (1, rnd.choice([('check',), ('ack',), ('rpc', 0)]), [])]
+        return 1, steps
     return nchan, steps
 
 
